@@ -38,6 +38,10 @@ def gen(tier, rng, harness=None):
     lines = []
     for t in modprops.corpus_texts() + ALIAS_TEXTS + ATTR_TEXTS + [t for _, t, _ in catalog.REPEATS]:
         lines.append("!mod.det - %s" % hx(t))
+    # every specialised metadata node with reference-valued fields (also references to NON-EMPTY tuples defined later): the definitions are translated in
+    # map order, so a node that looks at the CONTENT of a referenced node while it may still be a skeleton gives a result that depends on that order
+    for _, t, _ in catalog.DI + catalog.DI_REFS:
+        lines.append("!mod.det - %s" % hx(t))
     # earlier parse/print activity must not matter: every module against polluters drawn from the catalogue (incl. named non-struct types),
     # the corpus and other generated modules
     cat = [t for _, t, _ in catalog.STRUCTURED + catalog.NAMED_NONSTRUCT + catalog.inst_entries() + catalog.DI]
